@@ -645,15 +645,23 @@ fn insert_imported_namespace(
             let mut syms = vec![];
 
             // Load all the public items into the current namespace.
-            let imported_ns = imported_ns.borrow();
-            for (sym, value) in &imported_ns.values {
-                if imported_ns.exported_syms.contains(sym) {
-                    current_ns
-                        .borrow_mut()
-                        .values
-                        .insert(sym.clone(), value.clone());
-                    syms.push(sym.clone());
+            //
+            // Collect them first: a file may import itself, in
+            // which case `imported_ns` and `current_ns` are the same
+            // RefCell and must not be borrowed at the same time.
+            let mut public_values = vec![];
+            {
+                let imported_ns = imported_ns.borrow();
+                for (sym, value) in &imported_ns.values {
+                    if imported_ns.exported_syms.contains(sym) {
+                        public_values.push((sym.clone(), value.clone()));
+                    }
                 }
+            }
+
+            for (sym, value) in public_values {
+                current_ns.borrow_mut().values.insert(sym.clone(), value);
+                syms.push(sym);
             }
 
             syms
